@@ -54,6 +54,16 @@ func draw(t *rapid.T) Case {
 	ro := ref.Opts{Neg: neg}
 	st := &ref.State{Root: doc.Clone()}
 	var ops []ref.Op
+	if gen.OneIn(t, 20, "alias") {
+		ops := g.Alias(t, doc, ro)
+		var keep []ref.Op
+		for _, op := range ops {
+			if op.Op != "test" || safeValue(op.Value) {
+				keep = append(keep, op)
+			}
+		}
+		return Case{Doc: doc.Text(false), Patch: ref.OpsText(keep, false), Neg: neg}
+	}
 	n := gen.Uniform(t, 0, 8, "nops")
 	if gen.OneIn(t, 15, "longseq") {
 		n = gen.Uniform(t, 9, 24, "nopslong")
